@@ -1,4 +1,5 @@
-(** C18 - simplest_from_f32 / simplest_from_f64 outside finding F04: for every format (mb >= 1
+(** C18 - simplest_from_f32 / simplest_from_f64, the PINNED (pre-repair) macro body outside finding F04
+    (kept: it documents what was right about the old code; the repaired body is in SimplestIeeeFixed.v): for every format (mb >= 1
     mantissa bits, any exponent width) and every bit pattern whose last mantissa bit has a
     non-positive exponent (ulp <= 1, i.e. not [known_ieee]) the as-is model of
     impl_simplest_from_float! equals the specification [simplest_from_ieee_spec].
@@ -91,13 +92,13 @@ Proof.
   rewrite Z.pow_add_r by lia. rewrite Z.pow_1_r, Z.even_mul. cbn [Z.even orb]. destruct (Z.even M); reflexivity.
 Qed.
 
-Theorem simplest_from_ieee_asis_spec_nonpow2 : forall mb eb bits, 1 <= mb ->
+Theorem simplest_from_ieee_pinned_spec_nonpow2 : forall mb eb bits, 1 <= mb ->
   known_ieee mb eb bits = false ->
   (bits mod 2 ^ mb =? 0) && (2 <=? (bits / 2 ^ mb) mod 2 ^ eb) = false ->
-  simplest_from_ieee_asis mb eb bits = simplest_from_ieee_spec mb eb bits.
+  simplest_from_ieee_pinned mb eb bits = simplest_from_ieee_spec mb eb bits.
 Proof.
   intros mb eb bits Hmb Hk Hpw.
-  pose proof (simplest_from_ieee_asis_closed mb eb bits) as HA. cbv zeta in HA. rewrite HA. clear HA.
+  pose proof (simplest_from_ieee_pinned_closed mb eb bits) as HA. cbv zeta in HA. rewrite HA. clear HA.
   unfold simplest_from_ieee_spec, ieee_interval_spec. cbv zeta.
   unfold known_ieee in Hk. cbv zeta in Hk.
   set (E := (bits / 2 ^ mb) mod 2 ^ eb) in *.
@@ -144,9 +145,9 @@ Qed.
 
 (** non-vacuity: 0.1f32, -22/7 as f32, the smallest subnormal f64 *)
 Example simplest_from_ieee_examples :
-  known_ieee 23 8 1036831949 = false /\ simplest_from_ieee_asis 23 8 1036831949 = Ok (Some (1, 10)) /\
-  simplest_from_ieee_asis 23 8 3226018962 = Ok (Some (-22, 7)) /\ simplest_from_ieee_spec 23 8 3226018962 = Ok (Some (-22, 7)) /\
-  known_ieee 52 11 1 = false /\ simplest_from_ieee_asis 52 11 1 = simplest_from_ieee_spec 52 11 1.
+  known_ieee 23 8 1036831949 = false /\ simplest_from_ieee_pinned 23 8 1036831949 = Ok (Some (1, 10)) /\
+  simplest_from_ieee_pinned 23 8 3226018962 = Ok (Some (-22, 7)) /\ simplest_from_ieee_spec 23 8 3226018962 = Ok (Some (-22, 7)) /\
+  known_ieee 52 11 1 = false /\ simplest_from_ieee_pinned 52 11 1 = simplest_from_ieee_spec 52 11 1.
 Proof. repeat split; vm_compute; reflexivity. Qed.
 
 (** * normal powers of two: the code's interval is wider below f, the optimum is the same *)
@@ -349,13 +350,13 @@ Section Pow2.
   Qed.
 End Pow2.
 
-Theorem simplest_from_ieee_asis_spec_pow2 : forall mb eb bits, 1 <= mb ->
+Theorem simplest_from_ieee_pinned_spec_pow2 : forall mb eb bits, 1 <= mb ->
   known_ieee mb eb bits = false ->
   (bits mod 2 ^ mb =? 0) && (2 <=? (bits / 2 ^ mb) mod 2 ^ eb) = true ->
-  simplest_from_ieee_asis mb eb bits = simplest_from_ieee_spec mb eb bits.
+  simplest_from_ieee_pinned mb eb bits = simplest_from_ieee_spec mb eb bits.
 Proof.
   intros mb eb bits Hmb Hk Hpw.
-  pose proof (simplest_from_ieee_asis_closed mb eb bits) as HA. cbv zeta in HA. rewrite HA. clear HA.
+  pose proof (simplest_from_ieee_pinned_closed mb eb bits) as HA. cbv zeta in HA. rewrite HA. clear HA.
   unfold simplest_from_ieee_spec, ieee_interval_spec. cbv zeta.
   unfold known_ieee in Hk. cbv zeta in Hk.
   set (E := (bits / 2 ^ mb) mod 2 ^ eb) in *.
@@ -398,19 +399,19 @@ Proof.
 Qed.
 
 (** ** the headline for f32 / f64: outside finding F04 the macro computes the specified optimum *)
-Theorem simplest_from_ieee_asis_spec : forall mb eb bits, 1 <= mb ->
+Theorem simplest_from_ieee_pinned_spec : forall mb eb bits, 1 <= mb ->
   known_ieee mb eb bits = false ->
-  simplest_from_ieee_asis mb eb bits = simplest_from_ieee_spec mb eb bits.
+  simplest_from_ieee_pinned mb eb bits = simplest_from_ieee_spec mb eb bits.
 Proof.
   intros mb eb bits Hmb Hk.
   destruct ((bits mod 2 ^ mb =? 0) && (2 <=? (bits / 2 ^ mb) mod 2 ^ eb)) eqn:Hpw.
-  - apply simplest_from_ieee_asis_spec_pow2; assumption.
-  - apply simplest_from_ieee_asis_spec_nonpow2; assumption.
+  - apply simplest_from_ieee_pinned_spec_pow2; assumption.
+  - apply simplest_from_ieee_pinned_spec_nonpow2; assumption.
 Qed.
 
 Example simplest_from_ieee_pow2_examples :
-  known_ieee 23 8 1065353216 = false /\ simplest_from_ieee_asis 23 8 1065353216 = Ok (Some (1, 1)) /\
-  known_ieee 23 8 3196059648 = false /\ simplest_from_ieee_asis 23 8 3196059648 = Ok (Some (-1, 4)) /\
+  known_ieee 23 8 1065353216 = false /\ simplest_from_ieee_pinned 23 8 1065353216 = Ok (Some (1, 1)) /\
+  known_ieee 23 8 3196059648 = false /\ simplest_from_ieee_pinned 23 8 3196059648 = Ok (Some (-1, 4)) /\
   known_ieee 52 11 4503599627370496 = false /\
-  simplest_from_ieee_asis 52 11 4503599627370496 = simplest_from_ieee_spec 52 11 4503599627370496.
+  simplest_from_ieee_pinned 52 11 4503599627370496 = simplest_from_ieee_spec 52 11 4503599627370496.
 Proof. repeat split; vm_compute; reflexivity. Qed.
